@@ -1,4 +1,199 @@
-import TfelVerif.C13.Model
+/-
+  C13 — Expression evaluator implements the documented formula language.
+
+  Theorems about the executable model of `tfel::math::Evaluator` (Model.lean; tied to the C++ by the string
+  correspondence of checks/C13.py on every run). `reduceItems` is `Evaluator::TGroup::reduce`: the five
+  passes `**`, `/`, `*`, `-`, `+` over the items of a group, generic in the operand type, and it is the
+  function the driver runs on every group of every formula.
+
+  (a) round trip / unambiguity: every term, printed by the precedence-aware printer `Tm.print` (parentheses
+      only where the five-level grammar needs them), is parsed back to itself; shapes are parsed back too.
+  (b) standard precedence by value: for every derivation of the textbook grammar
+      `expr := [-] term {(+ [-] | -) term}`, `term := power {(*|/) [-] power}`, `power := atom [** [-] atom]`
+      the code's reduction succeeds and its result has the standard value in every field
+      (tree shapes differ: `a*b/c ↦ a*(b/c)`, `a+b-c ↦ a+(b-c)`); chained `**` are excluded (see the
+      observation `chained_power_is_left_associative`).
+  (c) rejection: a group is reduced to a tree only if it is a shape (`[-] x (op [-] x)*`, no `- -`);
+      every other item list raises an error or stays unreduced.
+  (d) parameter → variable rewriting and the integer-power specialisation preserve the value.
+-/
+import TfelVerif.C13.Eval
+
 namespace TfelVerif.C13.Props
-theorem placeholder : (1 : Nat) = 1 := rfl
+open TfelVerif.C13 Item
+
+variable {α : Type} [Alg α]
+
+/-! ### the reduction is complete and deterministic on shapes -/
+
+/-- every well-formed shape is reduced, without error, to the tree `T5` of the code's effective grammar -/
+theorem group_reduction_complete (s : Flat α) (hs : s.WF) :
+    reduceItems (flatten s) = .ok [opnd (T5 s)] :=
+  reduceItems_flatten s hs
+
+example : Flat.WF (((false, (1 : Nat)), [(Op.mul, true, 2), (Op.sub, false, 3)]) : Flat Nat) := by
+  intro e he; simp at he; rcases he with rfl | rfl <;> simp
+
+/-- the code's passes compute exactly the five-level left-associative grammar
+    `+ < - < * < / < **` (unary minus at the head of a `-`-chain and after `+ * / **`) -/
+theorem reduction_is_five_level_grammar (c : AddC α) :
+    reduceItems (flatten c.yield) = .ok [opnd c.tree] := by
+  rw [reduceItems_flatten _ (yield5_WF c), T5_yield5]
+
+/-! ### (a) round trip -/
+
+/-- print/parse round trip: for every term (any depth), reducing the printed group gives the term back -/
+theorem print_parse_round_trip {β : Type} (t : Tm β) :
+    reduceItems (flatten t.print) = .ok [opnd t] := by
+  rw [Tm.print, reduction_is_five_level_grammar, Tm.toAdd_tree]
+
+/-- the printer does omit parentheses: `a * b - c / d ** e` is printed as one group of nine items -/
+example : (flatten (Tm.print (Tm.bin .sub (Tm.bin .mul (Tm.atom 1) (Tm.atom 2))
+    (Tm.bin .div (Tm.atom 3) (Tm.bin .pow (Tm.atom 4) (Tm.atom 5)))))).length = 9 := by decide
+
+omit [Alg α] in
+/-- shapes are unambiguous: the item list of a shape is parsed back to the shape -/
+theorem shape_round_trip (s : Flat α) (hs : s.WF) : unflat (flatten s) = some s := by
+  obtain ⟨⟨n, a⟩, t⟩ := s
+  have ht : ∀ t : List (Entry α), (∀ e ∈ t, e.1 = Op.sub → e.2.1 = false) →
+      unflatTail (flattenTail t) = some t := by
+    intro t
+    induction t with
+    | nil => intro _; rfl
+    | cons e t ih =>
+      intro h
+      obtain ⟨o, m, b⟩ := e
+      have ih' := ih (fun e he => h e (List.mem_cons_of_mem _ he))
+      cases m
+      · simp [flattenTail, unflatTail, ih']
+      · have ho : o ≠ Op.sub := fun ho => by
+          have := h (o, true, b) (List.mem_cons_self ..) ho; simp at this
+        cases o <;> simp_all [flattenTail, unflatTail]
+  have := ht t hs
+  cases n <;> simp [flatten, flattenHead, unflat, this]
+
+/-! ### (b) standard precedence by value -/
+
+/-- for every derivation `S` of the textbook grammar (standard precedence, no chained `**`) and every
+    field, the code's reduction of the yield of `S` succeeds with the standard value of `S` -/
+theorem standard_precedence_value {K : Type} [Field K] [HasPw K] (S : SumD K) (hS : S.WF) :
+    reduceItems (flatten S.yield) = .ok [opnd S.val3] := by
+  rw [reduceItems_flatten _ (S.yield_WF hS), T5_yield_val3 S hS]
+
+/-- the same on trees: the code-order parse and the reference parse `S.val3` (built with the standard
+    precedence) have the same value under every interpretation in an ordered field -/
+theorem standard_precedence_trees {ν K : Type} [Field K] [LinearOrder K] (I : Interp ν K)
+    (S : SumD (Expr ν)) (hS : S.WF) :
+    ∃ t, reduceItems (flatten S.yield) = .ok [opnd t] ∧ Expr.eval I t = Expr.eval I S.val3 := by
+  refine ⟨T5 S.yield, reduceItems_flatten _ (S.yield_WF hS), ?_⟩
+  let _ : HasPw K := ⟨I.pw⟩
+  have hh : AlgHom (Expr.eval I) := ⟨fun a => rfl, fun o a b => by cases o <;> rfl⟩
+  rw [hom_T5 _ hh _ (S.yield_WF hS), ← SumD.yield_map, SumD.val3_map _ hh,
+    T5_yield_val3 _ (S.map_WF _ hS)]
+
+/-- non-vacuity and the shape difference: `a * b / c` is reduced to `a * (b / c)`, not `(a * b) / c` -/
+example (a b c : α) :
+    reduceItems [opnd a, oper .mul, opnd b, oper .div, opnd c]
+      = .ok [opnd (Alg.bin .mul a (Alg.bin .div b c))] := by
+  simp [reduceItems, pass, bind, Except.bind, pa_opnd, pa_other, pa_bin, pa_nil]
+
+/-- observation (docs/web/math.md is silent on associativity): chained powers are left-associative -/
+theorem chained_power_is_left_associative (a b c : α) :
+    reduceItems [opnd a, oper .pow, opnd b, oper .pow, opnd c]
+      = .ok [opnd (Alg.bin .pow (Alg.bin .pow a b) c)] := by
+  simp [reduceItems, pass, bind, Except.bind, pa_opnd, pa_other, pa_bin, pa_nil]
+
+/-- ... and a unary minus in the exponent only takes the next operand: `a ** - b ** c = (a ** (-b)) ** c` -/
+theorem chained_power_with_minus (a b c : α) :
+    reduceItems [opnd a, oper .pow, oper .sub, opnd b, oper .pow, opnd c]
+      = .ok [opnd (Alg.bin .pow (Alg.bin .pow a (Alg.neg b)) c)] := by
+  simp [reduceItems, pass, bind, Except.bind, pa_opnd, pa_other, pa_bin, pa_binneg, pa_nil]
+
+/-! ### (c) rejection -/
+
+/-- a group is reduced to one tree only if its items form a shape, and then the tree is `T5` of it:
+    nothing else is silently accepted, and no shape is parsed differently -/
+theorem accepted_only_shapes (l : List (Item α)) (v : α) (h : reduceItems l = .ok [opnd v]) :
+    ∃ s : Flat α, s.WF ∧ flatten s = l ∧ v = T5 s := by
+  have hacc : accept l := by
+    have := run_reduceItems l _ h
+    unfold accept; rw [← this]; rfl
+  obtain ⟨s, hs⟩ := unflat_of_accept l hacc
+  obtain ⟨hfl, hwf⟩ := flatten_of_unflat l s hs
+  refine ⟨s, hwf, hfl, ?_⟩
+  have := reduceItems_flatten s hwf
+  rw [hfl, h] at this
+  simpa using this
+
+/-- malformed item lists are never reduced to a tree -/
+theorem malformed_rejected (l : List (Item α)) (hl : ¬ accept l) (v : α) : reduceItems l ≠ .ok [opnd v] := by
+  intro h
+  obtain ⟨s, _, hfl, _⟩ := accepted_only_shapes l v h
+  apply hl
+  have := run_reduceItems l _ h
+  unfold accept; rw [← this]; rfl
+
+omit [Alg α] in
+theorem empty_not_accepted : ¬ accept ([] : List (Item α)) := by simp [accept, St.run]
+
+omit [Alg α] in
+/-- operator at the end of the group -/
+theorem trailing_operator_not_accepted (l : List (Item α)) (o : Op) : ¬ accept (l ++ [oper o]) := by
+  unfold accept
+  rw [run_append]
+  cases St.run .start l with
+  | none => simp
+  | some q => cases q <;> cases o <;> simp [St.run, St.step]
+
+omit [Alg α] in
+/-- two operands without an operator (`2 x`) -/
+theorem adjacent_operands_not_accepted (l r : List (Item α)) (a b : α) :
+    ¬ accept (l ++ opnd a :: opnd b :: r) := by
+  unfold accept
+  rw [run_append]
+  cases St.run .start l with
+  | none => simp
+  | some q => cases q <;> simp [St.run, St.step]
+
+omit [Alg α] in
+/-- two operators other than the allowed `op -` (with `op ≠ -`) patterns -/
+theorem two_operators_not_accepted (l r : List (Item α)) (o1 o2 : Op) (h : o2 ≠ .sub ∨ o1 = .sub) :
+    ¬ accept (l ++ oper o1 :: oper o2 :: r) := by
+  unfold accept
+  rw [run_append]
+  cases St.run .start l with
+  | none => simp
+  | some q => cases q <;> cases o1 <;> cases o2 <;> simp_all [St.run, St.step]
+
+omit [Alg α] in
+/-- operator other than `-` at the beginning -/
+theorem leading_operator_not_accepted (r : List (Item α)) (o : Op) (h : o ≠ .sub) : ¬ accept (oper o :: r) := by
+  unfold accept; cases o <;> simp_all [St.run, St.step]
+
+/-- e.g. `a + * b`, `a - - b`, `a +` are rejected -/
+example (a b : α) (v : α) : reduceItems [opnd a, oper .sub, oper .sub, opnd b] ≠ .ok [opnd v] :=
+  malformed_rejected _ (two_operators_not_accepted [opnd a] [opnd b] .sub .sub (Or.inr rfl)) v
+
+/-! ### (d) rewritings preserve the value -/
+
+/-- `createFunctionByChangingParametersIntoVariables`: the rewritten tree has the same value when the new
+    variables are given the parameters' values -/
+theorem parameter_rewriting_preserves_value {ν K : Type} [Field K] [LinearOrder K] (I : Interp ν K)
+    (ps : List String) (hps : ∀ p ∈ ps, I.var p = I.par p) (e e' : Expr ν)
+    (h : e.rewriteParams ps = .ok e') : Expr.eval I e' = Expr.eval I e :=
+  (Expr.rewriteParams_eval I ps hps e e' h).1
+
+example : (Expr.bin .mul (Expr.param "a") (Expr.var "x") : Expr Nat).rewriteParams ["a"]
+    = .ok (Expr.bin .mul (Expr.var "a") (Expr.var "x")) := by
+  simp [Expr.rewriteParams, bind, Except.bind, pure, Except.pure]
+
+/-- `TBinaryOperation::analyse`: replacing `a ** b` by the integer power `power<n>(a)` preserves the value
+    whenever the exponent test is exact and `pw x n = x ^ n` -/
+theorem power_specialisation_preserves_value {ν K : Type} [Field K] [LinearOrder K] (I : Interp ν K)
+    (one : ν) (small : Expr ν → Except Err (Option Int)) (hone : I.num one = 1)
+    (hsmall : ∀ b n, small b = .ok (some n) → Expr.eval I b = (n : K))
+    (hpw : ∀ (x : K) (n : Int), I.pw x (n : K) = x ^ n) (e e' : Expr ν)
+    (h : e.specialise one small = .ok e') : Expr.eval I e' = Expr.eval I e :=
+  (Expr.specialise_eval I one small hone hsmall hpw e e' h).1
+
 end TfelVerif.C13.Props
